@@ -281,6 +281,14 @@ class Run:
         print(f'VIOLATION property={self.pid} replay={path}')
         print(f'  {what}')
 
+    def save_unreproduced(self, scenario, predicted=None, real=None):
+        """keep a scenario on which encoding and native run disagree (diagnosis of the model, never a verdict); returns its path"""
+        os.makedirs(REPLAYS, exist_ok=True)
+        self._nunrep = getattr(self, '_nunrep', 0) + 1
+        path = os.path.join(REPLAYS, f'{self.pid}-unreproduced-{self._nunrep}.json')
+        json.dump({'property': self.pid, 'what': 'encoding and native run disagree (model diagnosis)', 'scenario': scenario, 'predicted': predicted, 'observed': real}, open(path, 'w'), indent=1, default=str)
+        return path
+
     def finish(self, level='other', explanation='', rule='', extra=None):
         wall = round(time.time() - self.t0, 2)
         nun = sum(1 for o in self.obl if o['result'] == 'unsat'); nsat = sum(1 for o in self.obl if o['result'] == 'sat')
